@@ -279,8 +279,12 @@ def explore(body, focus, bound, on_exec, granularity="entry", root_prefix=(), ca
     Returns (#executions, capped?)."""
     stack = [list(root_prefix)]
     n = 0
+    explore.remaining = []
     while stack:
         if cap is not None and n >= cap:
+            # budget used up: the unexplored prefixes are handed back (explore.remaining) so that the caller can
+            # re-queue them - nothing is dropped
+            explore.remaining = stack
             return n, True
         prefix = stack.pop()
         exe, out, exc = execute(body, prefix, focus, granularity)
